@@ -64,6 +64,12 @@ def prims():
             return [(st, "ret", adt(OPT, 1, (I(a[1] + b[1]),)) if a[1] + b[1] <= NULL else adt(OPT, 0, ()))]
         return [(st, "ret", TOP)]
 
+    def checked_sub(ip, st, args, info):
+        a, b = args
+        if a[0] == "i" and b[0] == "i":
+            return [(st, "ret", adt(OPT, 1, (I(a[1] - b[1]),)) if a[1] >= b[1] else adt(OPT, 0, ()))]
+        return [(st, "ret", TOP)]
+
     def vec_clear(ip, st, args, info):
         r = args[0]
         ip.write(st, r[1], r[2], ("vec", ()))
@@ -94,6 +100,7 @@ def prims():
         "core::ops::index::IndexMut::index_mut": index_mut,
         "core::ops::index::Index::index": index_mut,
         "core::num::<impl usize>::checked_add": checked_add,
+        "core::num::<impl usize>::checked_sub": checked_sub,
         "core::num::nonzero::NonZero::get": nz_get,
         "core::num::nonzero::NonZero::new": nz_new,
         "core::num::nonzero::NonZero::new_unchecked": nz_get,
